@@ -1038,6 +1038,12 @@ func (g *gen) c12Random() *tcase {
 			}
 		}
 	}
+	// the spokfile itself is a symbolic link into another directory (a shared spokfile): the project is where the LINK is
+	if g.chance(0.12) {
+		tc.tree = append(tc.tree, entry{"d", homeRel + "/common", ""}, entry{"f", homeRel + "/common/top.o", "ct"},
+			entry{"f", homeRel + "/common/sub/a.o", "ca"}, entry{"f", homeRel + "/common/docs/i.html", "ci"},
+			entry{"l", projRel + "/spokfile", "../common/spokfile"})
+	}
 	if g.chance(0.2) {
 		t := task{name: "clean", cmds: []command{echoCmd(cleanMarker)}}
 		if g.chance(0.5) {
@@ -1060,6 +1066,15 @@ func (g *gen) c12Random() *tcase {
 		tc.stmts[ti].t.files = append(tc.stmts[ti].t.files, g.pick(notdirPool))
 	}
 	return tc
+}
+
+func (tc *tcase) hasGlob() bool {
+	for _, s := range tc.stmts {
+		if s.isTask && len(s.t.globs) > 0 {
+			return true
+		}
+	}
+	return false
 }
 
 func (g *gen) taskIndex(tc *tcase) int {
@@ -1518,6 +1533,27 @@ func genMain(w *bufio.Writer, a map[string]string) {
 		}
 		for i := 0; i < n; i++ {
 			fmt.Fprintln(w, g.c12Random().encode())
+		}
+	case "C05", "C19":
+		// the env engine as an extra engine: `--clean` on the real binary is where output GLOBS are expanded (C05: the
+		// files removed are exactly the matching non-hidden ones) and where spok deletes things (C19: nothing but what
+		// the action allows).  The cases are C12 cases (their line says so); for C05 only those with an output glob.
+		for _, tc := range c12Singles() {
+			if prop == "C19" || tc.hasGlob() {
+				fmt.Fprintln(w, tc.encode())
+			}
+		}
+		n := 400
+		if thorough {
+			n = 3000
+		}
+		for i := 0; i < n; {
+			tc := g.c12Random()
+			if prop == "C05" && !tc.hasGlob() {
+				continue
+			}
+			i++
+			fmt.Fprintln(w, tc.encode())
 		}
 	case "C13":
 		n := 560
